@@ -242,24 +242,25 @@ theorem cut_snd_length_le (sep s : Str) : (cut sep s).2.length ≤ s.length := b
   · simp only [List.length_drop]; omega
 
 theorem expandVars_cases (v : Str) (m : Map) (lk : Env) :
-    (∃ p, expandVars v m lk = .error (.tmpl p)) ∨ (∃ e, expandVars v m lk = .ok (.error e)) ∨
+    (∃ p, expandVars v m lk = .error (.tmpl p) ∧ Template.subst (envOf lk m) v = .panic p) ∨
+    (∃ e, expandVars v m lk = .ok (.error e)) ∨
     (∃ r, expandVars v m lk = .ok (.ok r)) := by
   unfold expandVars
-  split
-  · exact Or.inr (Or.inr ⟨_, rfl⟩)
-  · exact Or.inr (Or.inl ⟨_, rfl⟩)
-  · exact Or.inl ⟨_, rfl⟩
+  cases h : Template.subst (envOf lk m) v with
+  | ok r => exact Or.inr (Or.inr ⟨_, rfl⟩)
+  | err e => exact Or.inr (Or.inl ⟨_, rfl⟩)
+  | panic p => exact Or.inl ⟨p, rfl, rfl⟩
 
 /-- `extractVarValue` panics only inside `template.Substitute`, and never returns more than it was given -/
 theorem extractValue_total (src : Str) (m : Map) (lk : Env) :
-    (∃ p, extractValue src m lk = .error (.tmpl p)) ∨ (∃ e, extractValue src m lk = .ok (.error e)) ∨
+    (∃ p, extractValue src m lk = .error (.tmpl p) ∧ ∃ env v, Template.subst env v = .panic p) ∨ (∃ e, extractValue src m lk = .ok (.error e)) ∨
     (∃ v left, extractValue src m lk = .ok (.ok (v, left)) ∧ left.length ≤ src.length) := by
   unfold extractValue
   simp only
   split
   · -- unquoted
-    rcases expandVars_cases (trimRightU (cut [' ', '#'] (cut ['\n'] src).1).1) m lk with ⟨p, h⟩ | ⟨e, h⟩ | ⟨r, h⟩
-    · rw [h]; exact Or.inl ⟨_, rfl⟩
+    rcases expandVars_cases (trimRightU (cut [' ', '#'] (cut ['\n'] src).1).1) m lk with ⟨p, h, hs⟩ | ⟨e, h⟩ | ⟨r, h⟩
+    · rw [h]; exact Or.inl ⟨_, rfl, _, _, hs⟩
     · rw [h]; exact Or.inr (Or.inl ⟨_, rfl⟩)
     · rw [h]; exact Or.inr (Or.inr ⟨_, _, rfl, cut_snd_length_le _ _⟩)
   · rename_i q hq
@@ -285,8 +286,8 @@ theorem extractValue_total (src : Str) (m : Map) (lk : Env) :
       simp only
       rw [sliceFrom_le (show i + 1 ≤ src.length by omega)]
       split
-      · rcases expandVars_cases (expandEscapes chars) m lk with ⟨p, h⟩ | ⟨e, h⟩ | ⟨r, h⟩
-        · rw [h]; exact Or.inl ⟨_, rfl⟩
+      · rcases expandVars_cases (expandEscapes chars) m lk with ⟨p, h, hs⟩ | ⟨e, h⟩ | ⟨r, h⟩
+        · rw [h]; exact Or.inl ⟨_, rfl, _, _, hs⟩
         · rw [h]; exact Or.inr (Or.inl ⟨_, rfl⟩)
         · rw [h]; exact Or.inr (Or.inr ⟨_, _, rfl, by simp⟩)
       · exact Or.inr (Or.inr ⟨_, _, rfl, by simp⟩)
@@ -294,7 +295,8 @@ theorem extractValue_total (src : Str) (m : Map) (lk : Env) :
 /-! ## A.5 `parser.parse`: the only panic sites are inside `template.Substitute`; the fuel suffices -/
 
 theorem parseLoop_panic_sites : ∀ (fuel : Nat) (src : Str) (m : Map) (lk : Env) (s : Site),
-    src.length < fuel → parseLoop fuel src m lk = .panic s → ∃ p, s = .tmpl p
+    src.length < fuel → parseLoop fuel src m lk = .panic s →
+      ∃ p, s = .tmpl p ∧ ∃ env v, Template.subst env v = .panic p
   | 0, src, m, lk, s, h, _ => by omega
   | fuel + 1, src, m, lk, s, h, hp => by
     unfold parseLoop at hp
@@ -317,13 +319,14 @@ theorem parseLoop_panic_sites : ∀ (fuel : Nat) (src : Str) (m : Map) (lk : Env
           · split at hp
             · exact parseLoop_panic_sites fuel left _ lk s (by omega) hp
             · exact parseLoop_panic_sites fuel left _ lk s (by omega) hp
-          · rcases extractValue_total left m lk with ⟨p, hx⟩ | ⟨e, hx⟩ | ⟨v, left', hx, hle⟩
-            · rw [hx] at hp; simp only at hp; cases hp; exact ⟨p, rfl⟩
+          · rcases extractValue_total left m lk with ⟨p, hx, hs⟩ | ⟨e, hx⟩ | ⟨v, left', hx, hle⟩
+            · rw [hx] at hp; simp only at hp; cases hp; exact ⟨p, rfl, hs⟩
             · rw [hx] at hp; simp at hp
             · rw [hx] at hp; simp only at hp
               exact parseLoop_panic_sites fuel left' _ lk s (by omega) hp
 
-theorem parse_panic_sites (src : Str) (lk : Env) (s : Site) (h : parse src lk = .panic s) : ∃ p, s = .tmpl p :=
+theorem parse_panic_sites (src : Str) (lk : Env) (s : Site) (h : parse src lk = .panic s) :
+    ∃ p, s = .tmpl p ∧ ∃ env v, Template.subst env v = .panic p :=
   parseLoop_panic_sites _ src [] lk s (by omega) h
 
 /-! ## B.1 character classes -/
